@@ -234,6 +234,24 @@ def check_close(cfg, w, rep, lf):
                 else:
                     ok = False
                     tied.append("unguarded result of %s" % o.callee.path)
+            elif o.kind == "agg" and o.info.j.get("agg") == "adt" and o.info.j.get("path", "").endswith("::Result"):
+                if o.info.j.get("variant") == "Err":
+                    tied.append("Err(..)")          # reporting a failure is always truthful here
+                else:
+                    # an explicit Ok(..): the send must sit behind the Ok arm of persist, or behind a positive existence
+                    # check of the same destination
+                    def is_p(x):
+                        return _persist_origin(x) and x.path == ()
+
+                    def is_stat(x):
+                        return x.kind == "call" and x.callee is not None and norm_callee(x.callee.path) in (
+                            "std::path::Path::exists", "std::fs::exists") and w.sym.of_operand(x.body, x.term.args[0]) == dst_term
+                    gts = match_gates(prog, pbody, is_p, "Ok") + try_gates(prog, pbody, is_p) + bool_gates(prog, pbody, is_stat, True)
+                    if gts and not unreachable_without(prog, pbody, gts, [blk.i]):
+                        tied.append("Ok(..) behind persist Ok / exists(dst)")
+                    else:
+                        ok = False
+                        tied.append("Ok(..) not behind persist's Ok arm")
             else:
                 ok = False
                 tied.append(repr(o))
